@@ -1,5 +1,428 @@
 package main
 
-func cmdCheck(args []string) int    { return 2 }
-func cmdReplay(args []string) int   { return 2 }
+import (
+	"encoding/json"
+	"flag"
+	"fmt"
+	"os"
+	"path/filepath"
+	"sort"
+	"strconv"
+	"strings"
+	"sync"
+	"time"
+
+	"govc/engine"
+)
+
+type PropConfig struct {
+	ID         string   `json:"id"`
+	Functions  []string `json:"functions"`
+	Lemmas     []string `json:"lemmas"`
+	Bounded    []string `json:"bounded"`
+	NotCovered []string `json:"not_covered"`
+	Notes      string   `json:"notes"`
+	// SafetyOnly functions are checked for language-level safety obligations only
+	// (no contract required); used by C01's closure.
+	SafetyOnly []string `json:"safety_only"`
+	// Unproved lists obligations that do not discharge on the pinned tree for a reason that
+	// is a limit of the contracts/engine (not a defect); they are reported as not covered,
+	// never counted as discharged, and a *new* failure is still a violation.
+	Unproved []string `json:"unproved"`
+}
+
+type KnownFinding struct {
+	Property   string `json:"property"`
+	Obligation string `json:"obligation"`
+	Witness    string `json:"witness"`
+	Status     string `json:"status"` // open | fixed
+	Commit     string `json:"commit,omitempty"`
+	Note       string `json:"note,omitempty"`
+}
+
+type KnownFile struct {
+	Findings []KnownFinding `json:"findings"`
+}
+
+func loadKnown(verif string) KnownFile {
+	var k KnownFile
+	data, err := os.ReadFile(filepath.Join(verif, "known_findings.json"))
+	if err == nil {
+		json.Unmarshal(data, &k)
+	}
+	return k
+}
+
+func envInt(name string, def int) int {
+	if v := os.Getenv(name); v != "" {
+		if n, err := strconv.Atoi(v); err == nil {
+			return n
+		}
+	}
+	return def
+}
+
+func cmdCheck(args []string) int {
+	fs := flag.NewFlagSet("check", flag.ExitOnError)
+	repo := fs.String("repo", "/repo", "")
+	verif := fs.String("verif", "/verif", "")
+	tier := fs.String("tier", "", "quick|thorough")
+	verbose := fs.Bool("v", false, "")
+	keep := fs.Bool("keep", false, "keep query files")
+	fs.Parse(args)
+	if fs.NArg() < 1 {
+		fmt.Fprintln(os.Stderr, "usage: govc check [--tier quick|thorough] <property-id>...")
+		return 2
+	}
+	if *tier == "" {
+		*tier = os.Getenv("VERIF_TIER")
+	}
+	if *tier == "" {
+		*tier = "quick"
+	}
+	seed := envInt("VERIF_SEED", 0)
+	start := time.Now()
+	e, err := engine.Load(*repo, *verif, []string{"./..."})
+	if err != nil {
+		// the tree does not load: nothing can be established
+		fmt.Printf("ENGINE-FAULT load: %v\n", err)
+		return 2
+	}
+	e.Tier = *tier
+	e.Seed = seed
+	e.Verbose = *verbose
+	e.Timeout = 30
+	if *tier == "thorough" {
+		e.Timeout = 120
+	}
+	loadS := time.Since(start).Seconds()
+	rc := 0
+	for _, id := range fs.Args() {
+		c := checkProperty(e, *verif, id, *tier, seed, loadS, *keep)
+		if c > rc {
+			rc = c
+		}
+	}
+	return rc
+}
+
+type obOut struct {
+	Name    string  `json:"name"`
+	Kind    string  `json:"kind"`
+	Text    string  `json:"text"`
+	Pos     string  `json:"pos,omitempty"`
+	Status  string  `json:"status"`
+	Backend string  `json:"backend"`
+	TimeS   float64 `json:"time_s,omitempty"`
+}
+
+func checkProperty(e *engine.Engine, verif, id, tier string, seed int, loadS float64, keep bool) int {
+	start := time.Now()
+	var cfg PropConfig
+	data, err := os.ReadFile(filepath.Join(verif, "props", id+".json"))
+	if err != nil {
+		fmt.Printf("ENGINE-FAULT %s: no property configuration: %v\n", id, err)
+		return 2
+	}
+	if err := json.Unmarshal(data, &cfg); err != nil {
+		fmt.Printf("ENGINE-FAULT %s: bad property configuration: %v\n", id, err)
+		return 2
+	}
+	known := loadKnown(verif)
+	scratch, _ := os.MkdirTemp("", "govc-"+id+"-")
+	if !keep {
+		defer os.RemoveAll(scratch)
+	}
+	type job struct {
+		key   string
+		lemma bool
+		rep   *engine.FuncReport
+	}
+	var jobs []*job
+	for _, f := range cfg.Functions {
+		jobs = append(jobs, &job{key: f})
+	}
+	for _, f := range cfg.SafetyOnly {
+		jobs = append(jobs, &job{key: f})
+	}
+	for _, l := range cfg.Lemmas {
+		jobs = append(jobs, &job{key: l, lemma: true})
+	}
+	var missing []string
+	var mu sync.Mutex
+	var wg sync.WaitGroup
+	sem := make(chan struct{}, 6)
+	// obligation generation is not concurrency-safe (shared sort registry): do it serially
+	for _, j := range jobs {
+		if j.lemma {
+			ct := e.Contracts[j.key]
+			if ct == nil {
+				missing = append(missing, j.key)
+				continue
+			}
+			j.rep = e.VerifyLemma(ct)
+			continue
+		}
+		fn := e.Funcs[expandKey(j.key)]
+		if fn == nil || fn.Blocks == nil {
+			missing = append(missing, j.key)
+			continue
+		}
+		j.rep = e.VerifyFunction(fn)
+	}
+	for _, j := range jobs {
+		if j.rep == nil {
+			continue
+		}
+		wg.Add(1)
+		go func(j *job) {
+			defer wg.Done()
+			sem <- struct{}{}
+			defer func() { <-sem }()
+			e.Solve(j.rep, scratch)
+			mu.Lock()
+			mu.Unlock()
+		}(j)
+	}
+	wg.Wait()
+
+	// collect
+	var all []obOut
+	byKind := map[string]int{}
+	byBackend := map[string]int{}
+	assumed := map[string]bool{}
+	var funcs []string
+	var failures []*failure
+	var faults []string
+	var solverSum, solverMax float64
+	var slow []obOut
+	nOb, nDis, nVac, nUnproved := 0, 0, 0, 0
+	unproved := map[string]bool{}
+	for _, u := range cfg.Unproved {
+		unproved[u] = true
+	}
+	knownOpen := map[string]KnownFinding{}
+	for _, k := range known.Findings {
+		if k.Property == id && k.Status == "open" {
+			knownOpen[k.Obligation] = k
+		}
+	}
+	seenKnown := map[string]bool{}
+	var knownLines []string
+	for _, m := range missing {
+		failures = append(failures, &failure{ob: &engine.Obligation{Name: m + "#contract-target-missing", Kind: "contract-target-missing", Text: "function or lemma under contract not found in the current tree", Status: "undischarged"}})
+	}
+	var unprovedSeen []string
+	for _, j := range jobs {
+		rep := j.rep
+		if rep == nil {
+			continue
+		}
+		funcs = append(funcs, rep.Func)
+		if rep.Error != "" {
+			// cannot generate or run the obligations of a function under contract: the property
+			// can no longer be established on this tree (fail closed; DESIGN §7)
+			failures = append(failures, &failure{rep: rep, ob: &engine.Obligation{Name: rep.Func + "#lowering", Kind: "lowering", Text: rep.Error, Status: "undischarged", Output: rep.Error}})
+			continue
+		}
+		for _, a := range rep.Assumed {
+			assumed[a] = true
+		}
+		solverSum += rep.SolverTimeS
+		if rep.SolverTimeS > solverMax {
+			solverMax = rep.SolverTimeS
+		}
+		for _, ob := range rep.Obligations {
+			o := obOut{Name: ob.Name, Kind: ob.Kind, Text: ob.Text, Pos: ob.Pos, Status: ob.Status, Backend: ob.Backend, TimeS: ob.TimeS}
+			if ob.Kind == "vacuity" {
+				nVac++
+				if ob.Status != "discharged" {
+					faults = append(faults, fmt.Sprintf("%s: vacuity canary %s (%s)", ob.Name, ob.Status, ob.FailNote))
+				}
+				continue
+			}
+			if ob.Status == "engine-fault" {
+				faults = append(faults, ob.Name+": "+ob.FailNote)
+				continue
+			}
+			if kf, ok := knownOpen[ob.Name]; ok {
+				if ob.Status != "discharged" {
+					seenKnown[ob.Name] = true
+					knownLines = append(knownLines, fmt.Sprintf("KNOWN-FINDING: property=%s %s witness: %s", id, ob.Name, kf.Witness))
+					o.Status = "known-finding"
+					all = append(all, o)
+					continue
+				}
+			}
+			if unproved[ob.Name] {
+				nUnproved++
+				unprovedSeen = append(unprovedSeen, ob.Name+" ["+ob.Status+"]")
+				o.Status = "not-covered(" + ob.Status + ")"
+				all = append(all, o)
+				continue
+			}
+			nOb++
+			byKind[ob.Kind]++
+			all = append(all, o)
+			if ob.Status == "discharged" {
+				nDis++
+				byBackend[ob.Backend]++
+				if ob.TimeS > 2 {
+					slow = append(slow, o)
+				}
+			} else {
+				failures = append(failures, &failure{rep: rep, ob: ob})
+			}
+		}
+	}
+	// report
+	for _, l := range knownLines {
+		fmt.Println(l)
+	}
+	rc := 0
+	violations := 0
+	for _, f := range failures {
+		violations++
+		path := writeReplay(e, verif, id, f)
+		suffix := ""
+		if !f.reproduced {
+			suffix = " no-failing-input-found"
+		}
+		fmt.Printf("VIOLATION property=%s replay=%s obligation=%s%s\n", id, path, f.ob.Name, suffix)
+		rc = 1
+	}
+	if len(faults) > 0 {
+		for _, f := range faults {
+			fmt.Printf("ENGINE-FAULT %s: %s\n", id, f)
+		}
+		if rc == 0 {
+			rc = 2
+		}
+	}
+	// evidence
+	var samples []obOut
+	for i, o := range all {
+		if i%max(1, len(all)/8) == 0 && len(samples) < 10 {
+			samples = append(samples, o)
+		}
+	}
+	var trusted []string
+	trusted = append(trusted, "govc VC generator (this repository's /verif/govc) and golang.org/x/tools/go/ssa v0.29.0 naive-form SSA as the semantics of the Go source",
+		"SMT solvers: z3 5.1.0 (z3-new), z3 4.8.12, cvc5 1.0.3")
+	var al []string
+	for a := range assumed {
+		al = append(al, a)
+	}
+	sort.Strings(al)
+	trusted = append(trusted, al...)
+	sort.Strings(funcs)
+	cov := map[string]any{
+		"obligations":              nOb,
+		"discharged":               nDis,
+		"checker_cmd":              engine.SolverVersions(),
+		"trusted_base":             trusted,
+		"samples":                  samples,
+		"functions_under_contract": funcs,
+		"obligations_by_kind":      byKind,
+		"discharged_by_backend":    byBackend,
+		"vacuity_canaries_sat":     nVac,
+		"solver_time_s":            map[string]any{"sum": round2(solverSum), "max_function": round2(solverMax)},
+		"slow_obligations":         slow,
+		"known_findings":           knownLines,
+		"not_covered":              cfg.NotCovered,
+		"not_covered_obligations":  unprovedSeen,
+		"bounded":                  cfg.Bounded,
+		"load_s":                   round2(loadS),
+		"all_obligations":          all,
+	}
+	ev := map[string]any{
+		"property_id": id,
+		"tier":        tier,
+		"seed":        seed,
+		"level":       "proof",
+		"coverage":    cov,
+		"assumptions": al,
+		"wall_s":      round2(time.Since(start).Seconds() + loadS),
+		"violations":  violations,
+	}
+	os.MkdirAll(filepath.Join(verif, "evidence"), 0o755)
+	out, _ := json.MarshalIndent(ev, "", " ")
+	os.WriteFile(filepath.Join(verif, "evidence", id+".json"), out, 0o644)
+	fmt.Printf("%s: %d obligations, %d discharged, %d known findings, %d not covered, %d violations, %d faults (%.1fs)\n", id, nOb, nDis, len(knownLines), nUnproved, violations, len(faults), time.Since(start).Seconds()+loadS)
+	return rc
+}
+
+func round2(f float64) float64 { return float64(int(f*100+0.5)) / 100 }
+
+// expandKey lets property files abbreviate the module path as "~".
+func expandKey(k string) string {
+	return strings.ReplaceAll(k, "~", "github.com/verily-src/fhirpath-go")
+}
+
+type failure struct {
+	rep        *engine.FuncReport
+	ob         *engine.Obligation
+	reproduced bool
+	replayOut  string
+}
+
+func writeReplay(e *engine.Engine, verif, id string, f *failure) string {
+	dir := filepath.Join(verif, "replays", id)
+	os.MkdirAll(dir, 0o755)
+	name := strings.NewReplacer("/", "_", "#", "_", " ", "_", "*", "").Replace(f.ob.Name)
+	path := filepath.Join(dir, name+".json")
+	rec := map[string]any{
+		"property":      id,
+		"obligation":    f.ob.Name,
+		"kind":          f.ob.Kind,
+		"clause":        f.ob.Text,
+		"position":      f.ob.Pos,
+		"status":        f.ob.Status,
+		"backend":       f.ob.Backend,
+		"solver_output": truncate(f.ob.Output, 20000),
+	}
+	if f.rep != nil {
+		rec["function"] = f.rep.Key
+		if f.ob.Status == "refuted" {
+			tryReplay(e, f, rec)
+		}
+	}
+	if !f.reproduced {
+		rec["verdict"] = "no-failing-input-found: " + fmt.Sprint(rec["replay_note"])
+	}
+	out, _ := json.MarshalIndent(rec, "", " ")
+	os.WriteFile(path, out, 0o644)
+	return path
+}
+
+func truncate(s string, n int) string {
+	if len(s) > n {
+		return s[:n] + "…"
+	}
+	return s
+}
+
+func cmdReplay(args []string) int {
+	if len(args) < 1 {
+		return 2
+	}
+	data, err := os.ReadFile(args[0])
+	if err != nil {
+		fmt.Println(err)
+		return 2
+	}
+	var rec map[string]any
+	json.Unmarshal(data, &rec)
+	fmt.Printf("obligation: %v\nclause: %v\nverdict: %v\n", rec["obligation"], rec["clause"], rec["verdict"])
+	if t, ok := rec["replay_test"].(string); ok {
+		out, ok2 := runReplayTest("/repo", fmt.Sprint(rec["replay_pkg_dir"]), t)
+		fmt.Println(out)
+		if ok2 {
+			return 0
+		}
+		return 1
+	}
+	return 0
+}
+
 func cmdSelftest(args []string) int { return 2 }
